@@ -32,7 +32,12 @@ def run(tier, seed, replay=None):
     build = common.build_repo("rel")
     work = common.new_workdir("c06")
     n = 120 if tier == "quick" else 1500
-    cases = harness.gen_cases(seed, 6, n, lambda rng, i: gen.gen_match_program(rng, size="small" if i % 3 else "medium"))
+    def mk(rng, i):
+        prog = gen.gen_match_program(rng, size="small" if i % 3 else "medium")
+        if i % 2 == 1:
+            gen.add_pass_splits(rng, prog)     # the pass continues in an include file, whose lines are numbered from 1 again
+        return prog
+    cases = harness.gen_cases(seed, 6, n, mk)
     results = harness.compile_cases(build, work, cases)
     acc, rej = harness.split_accepted(results)
     outs = harness.drive(acc, ["c02", "c06"])
